@@ -124,6 +124,8 @@ M = {
     'c15-date-only-rejected': ('C15', [(CTX, "        start_date = self._at_midnight(start_date)\n        if not isinstance(start_date, datetime.datetime):\n            return '#VALUE!'", "        if not isinstance(start_date, datetime.datetime):\n            return '#VALUE!'"),
                                        (ABS, "        start_date = self._at_midnight(start_date)\n        if not isinstance(start_date, datetime.datetime):\n            return '#VALUE!'", "        if not isinstance(start_date, datetime.datetime):\n            return '#VALUE!'")],
                                'EDATE rejects date-only values again (the repaired defect)'),
+    'c02-empty-sheet-prefix-accepted': ('C02', [(SRC + 'tokens/regexp_tokens/__init__.py', "regexp = r'((\\'([^\\'!]+?)\\'|(\\w+?))!)?\\$?([A-Z]+)\\$?(\\d+)'", "regexp = r'((\\'([^\\'!]*?)\\'|(\\w*?))!)?\\$?([A-Z]+)\\$?(\\d+)'")],
+                                        '=!A1 and =\'\'!A1 read the own sheet again (the repaired defect)'),
     'c01-amp-precedence': ('C01', [(SRC + 'translators/expression_token_translator.py', "AmpersandToken: 2,", "AmpersandToken: 3,")], '& binds as tightly as + -'),
     'c03-area-cells-not-registered': ('C03', [(SRC + 'translators/matrix_of_cell_identifiers_token_translator.py', "CellTranslator.translate(j, excel, context) for j in i",
                                                "(CellTranslator.translate(j, excel, context) if excel.fill_cell(j).column < 3 else context._get_cell_with_cell_preprocessor(j.uid)) for j in i")],
